@@ -257,7 +257,35 @@ def r3_identity(P, rep, ctx):
     rep.check(bool(saves2) and bool(none) and mf.hit_before(mf.g.exit, nodes=saves2, edges=none), "C05.R3", mf.fi.qual, "the source's manifest is carried over to the merged container", mf.fi.loc(), construct="manifest carried over", message="IH5MFRecord._fixes_after_merge does not save the original manifest next to the merged container")
 
 
+def r4b_rel_path(P, rep, ctx, rule="C05.R4"):
+    """Paths of visited nodes are made relative by cutting the visiting node's path off the *front*, once: a result built
+    with all-occurrence or character-set string operations misplaces nodes whose path repeats a segment."""
+    fi = P.func("ih5.overlay.IH5Node._rel_path")
+    f = F(ctx, fi)
+    pp = fi.params[1]
+    try:
+        paths = f.value_paths()
+    except ValueError as e:
+        raise AnalysisError(f"{rule}: _rel_path: {e}")
+    ok, shown = bool(paths), []
+    for lits, v, n_ in paths:
+        t = norm(v)
+        shown.append(t)
+        if t == pp:
+            continue  # relative input is returned as is
+        if isinstance(v, ast.Subscript) and norm(v.value) == pp and isinstance(v.slice, ast.Slice) and v.slice.lower is not None and v.slice.upper is None and v.slice.step is None:
+            lo = norm(v.slice.lower)
+            if "_gpath" in lo or lo == "1":
+                continue  # a slice that starts behind the prefix
+        if isinstance(v, ast.Call) and isinstance(v.func, ast.Attribute) and v.func.attr == "removeprefix" and norm(v.func.value) == pp:
+            continue
+        ok = False
+    rep.check(ok, rule, fi.qual, "the node's own path is cut off the front of an absolute path (slice / removeprefix), nothing else is rewritten", fi.loc(), construct="_rel_path result",
+              message=f"_rel_path builds its result as {shown}: replacing / stripping by value (str.replace, strip, split) also rewrites later occurrences of the same segment, so visited or copied nodes under repeated segment names (e.g. /data/raw/data/values) end up at the wrong relative path")
+
+
 def r4_copy_coverage(P, rep, ctx):
+    r4b_rel_path(P, rep, ctx)
     fi = P.func(f"{R}.merge_files")
     f = F(ctx, fi)
     g = f.g
